@@ -4,7 +4,7 @@
    (`pc`) and the non-modelled shorthand expanders (`oe`) are universally
    quantified: every theorem holds whatever they compute. *)
 From Coq Require Import List NArith ZArith QArith Qround Bool Lia.
-From Verif Require Import Base.GoSem Css.DeclTok Css.Decl Css.VarSubst Css.C08Spec Css.C08DeclProofs Css.C08VarSubstProofs Css.C08SpellingProofs.
+From Verif Require Import Base.GoSem Css.DeclTok Css.Decl Css.VarSubst Css.C08Spec Css.C08DeclProofs Css.C08VarSubstProofs Css.C08SpellingProofs Css.C08DeclMore.
 Import ListNotations.
 Open Scope nat_scope.
 
@@ -394,3 +394,26 @@ Module Examples.
     = [(s "column-width", VDim 12 4); (s "column-count", VKw (s "auto"))].
   Proof. vm_compute. reflexivity. Qed.
 End Examples.
+
+(* ---- final round: names of a box-shorthand expansion (Css/C08DeclMore.v) ---- *)
+
+(* For every value (1-4 components, var() or not): a successful expansion yields exactly the four
+   longhands of the shorthand in top/right/bottom/left order -- never a name outside the set. *)
+Theorem C08_four_sides_names :
+  forall known validate name tokens props,
+    expand_four_sides known validate name tokens = Some props ->
+    map np_name props = four_names name.
+Proof. exact four_sides_names. Qed.
+Print Assumptions C08_four_sides_names.
+
+Theorem C08_four_sides_length :
+  forall known validate name tokens props,
+    expand_four_sides known validate name tokens = Some props -> length props = 4.
+Proof. exact four_sides_length. Qed.
+Print Assumptions C08_four_sides_length.
+
+Theorem C08_validate_non_shorthand_name :
+  forall known validate n toks req p,
+    validate_non_shorthand known validate n toks req = Some p -> np_name p = n.
+Proof. exact vns_name. Qed.
+Print Assumptions C08_validate_non_shorthand_name.
